@@ -323,6 +323,110 @@ def digit_cases(rng, quick=True):
         add(d, 'XML character reference', po(list(GOOD), '#. type: Content of: <para>\nmsgid "<a>x</a>"\nmsgstr "<a%s>&#%s;&#x%s;</a%s>"\n\n' % (d, d, d, d)))
     return cases
 
+# ----------------------------------------------------------------------------- MO structure: every truncation point
+
+def mo_truncation_cases(rng):
+    """a small well-formed MO file (header, a message with context, a plural message; strings end exactly at EOF when the last
+    NUL is dropped) cut at EVERY length, and with each of its 32-bit words pointing just past / at / before the end"""
+    base = mo(list(GOOD), [(b'menu\x04File', b'Plik'), (b'%d file\x00%d files', b'%d plik\x00%d pliki'), (b'z', b'last')])
+    cases = []
+    for n in range(len(base)):
+        cases.append((base[:n], '.mo', {}, 'structure:MO file cut to %d of %d bytes' % (n, len(base))))
+    nstr = struct.unpack('<I', base[8:12])[0]
+    for w in range(7 + 4 * nstr):
+        at = 4 * w
+        for v in (len(base), len(base) - 1, len(base) + 1, len(base) - 4, 0, 0xFFFFFFFF, 0x7FFFFFFF):
+            cases.append((base[:at] + struct.pack('<I', v) + base[at + 4:], '.mo', {}, 'structure:MO word %d set to %d (file of %d bytes)' % (w, v, len(base))))
+        # the string this descriptor names ends exactly at the end of the file
+        old = struct.unpack('<I', base[at:at + 4])[0]
+        if w >= 7 and (w - 7) % 2 == 0:
+            off = struct.unpack('<I', base[at + 4:at + 8])[0]
+            cases.append((base[:at] + struct.pack('<I', max(len(base) - off, 0)) + base[at + 4:], '.mo', {}, 'structure:MO string %d made to end exactly at EOF' % ((w - 7) // 2)))
+    return cases
+
+# ----------------------------------------------------------------------------- codec exotica
+
+EXOTIC_PROBES = [b'\\ud800', b'\\udc00 \\ud800', b'\\ud800\\udc00', b'\\udfff', b'\\u0000', b'\\x00', b'\\ufffe', b'\\uffff', b'\\U0010ffff', b'\\U0001f600',
+                 b'\\N{BELL}', b'\\u2028', b'\\u0085', b'\\x1b[31m', b'\\x9b31m', b'\\u202e', b'\\ufeff', b'\\xbf', b'\\u00e4', b'\\u0661', b'\\ud7ff\\ue000',
+                 b'+2AA-', b'+AAA-', b'+//8-', b'~{<:~}', b'\x1b$B0!\x1b(B', b'\x1b$)C\x0e0!\x0f', b'\x0e\x0f', b'&#xD800;']
+
+def classify_text(t, src):
+    kinds = set()
+    for ch in t:
+        o = ord(ch)
+        if 0xD800 <= o <= 0xDFFF:
+            kinds.add('surrogate')
+        elif o == 0:
+            kinds.add('NUL')
+        elif (o & 0xFFFE) == 0xFFFE or 0xFDD0 <= o <= 0xFDEF:
+            kinds.add('noncharacter')
+        elif o < 32 and ch not in '\n\t\r' or 0x7F <= o <= 0x9F:
+            kinds.add('control')
+        elif o > 127:
+            kinds.add('non-ASCII')
+    return kinds if t != src.decode('ascii', 'replace') else set()
+
+_exotic_cache = {}
+def exotic_codecs():
+    """{codec name: [(ASCII probe bytes, kinds of surprising text it decodes to)]} for every codec the LOADED tool accepts as
+    ASCII-compatible (all names and aliases of the interpreter's registry + the tool's own tables)"""
+    if 'v' in _exotic_cache:
+        return _exotic_cache['v']
+    import encodings, encodings.aliases, pkgutil
+    from lib import encodings as E
+    names = set(encodings.aliases.aliases.values()) | set(encodings.aliases.aliases) | {m.name for m in pkgutil.iter_modules(encodings.__path__)}
+    for attr in ('_portable_encodings', '_extra_encodings'):
+        names |= set(getattr(E, attr, None) or ())
+    res = {}
+    seen_codec = {}
+    for n in sorted(names):
+        try:
+            if not E.is_ascii_compatible_encoding(n):
+                continue
+        except Exception:
+            continue
+        hits = []
+        for p in EXOTIC_PROBES:
+            try:
+                t = p.decode(n)
+            except Exception:
+                continue
+            kinds = classify_text(t, p)
+            if kinds:
+                hits.append((p, tuple(sorted(kinds))))
+        if hits:
+            key = tuple(hits)
+            # one name per distinct behaviour and codec object is enough (aliases decode alike)
+            if key not in seen_codec:
+                seen_codec[key] = n
+                res[n] = hits
+    _exotic_cache['v'] = res
+    return res
+
+def exotica_cases(rng, thorough=False):
+    """for each such codec and each probe it turns into surprising text: the probe in every text slot of a PO and an MO file
+    declared in that codec (gen/hostile.slot_files), backslashes of the carrier file doubled where the codec itself reads
+    backslash escapes (so that the file still parses and the probe alone is decoded)"""
+    from . import hostile as HG
+    cases = []
+    table = exotic_codecs()
+    for codec, hits in sorted(table.items()):
+        eats_backslash = False
+        try:
+            eats_backslash = (b'\\n'.decode(codec) != '\\n')
+        except Exception:
+            pass
+        chosen = hits if thorough else [h for h in hits if 'surrogate' in h[1] or 'NUL' in h[1] or 'noncharacter' in h[1]][:4] + rng.sample(hits, min(2, len(hits)))
+        for probe, kinds in chosen:
+            marker = 'EXOTICPROBE'
+            for slot, data, ext in HG.slot_files(marker):
+                data = data.replace(b'charset=UTF-8', b'charset=' + codec.encode('ascii'))
+                if eats_backslash and ext == '.po':
+                    data = data.replace(b'\\', b'\\\\')
+                data = data.replace(marker.encode(), probe)
+                cases.append((data, ext, {'basename': 'pl'}, 'exotica:%s %r (%s) in slot %s' % (codec, probe.decode('ascii', 'replace'), '+'.join(kinds), slot)))
+    return cases
+
 def all_cases(rng, thorough=False):
     """→ (cases, {group: count})"""
     groups = [
@@ -337,6 +441,8 @@ def all_cases(rng, thorough=False):
         ('white-space lines', whitespace_line_cases(rng)),
         ('white-space separators', whitespace_separator_cases(rng)),
         ('digits', digit_cases(rng, quick=not thorough)),
+        ('codec exotica', exotica_cases(rng, thorough)),
+        ('MO truncation', mo_truncation_cases(rng)),
     ]
     cases = []
     counts = {}
